@@ -261,22 +261,35 @@ fn offset_text(o: &Value) -> String {
 
 pub fn range_header_value(range: &Value) -> String {
     let ws = range["ws"].as_bool().unwrap_or(false);
+    let style = range["style"].as_str().unwrap_or("plain");
+    let num = |o: &Value| -> String {
+        let t = offset_text(o);
+        if style == "leading_zeros" && t.chars().all(|c| c.is_ascii_digit()) && !t.is_empty() { format!("00{}", t) } else { t }
+    };
+    let dash = if style == "sp_around_dash" { " - " } else { "-" };
     let specs: Vec<String> = range["specs"]
         .as_array()
         .map(|a| {
             a.iter()
                 .map(|s| match s["t"].as_str().unwrap_or("junk") {
-                    "fl" => format!("{}-{}", offset_text(&s["a"]), offset_text(&s["b"])),
-                    "f" => format!("{}-", offset_text(&s["a"])),
-                    "s" => format!("-{}", offset_text(&s["a"])),
+                    "fl" => format!("{}{}{}", num(&s["a"]), dash, num(&s["b"])),
+                    "f" => format!("{}{}", num(&s["a"]), dash.trim_end()),
+                    "s" => format!("{}{}", dash.trim_start(), num(&s["a"])),
                     _ => "abc".to_string(),
                 })
                 .collect()
         })
         .unwrap_or_default();
     let unit = if range["unit_ok"].as_bool().unwrap_or(true) { "bytes=" } else { "items=" };
-    let sep = if ws { " , " } else { "," };
-    format!("{}{}", unit, specs.join(sep))
+    let sep = if ws { " , " } else { match style { "sp_after_comma" => ", ", "tab_after_comma" => ",\t", _ => "," } };
+    let mut list = specs.join(sep);
+    if style == "empty_element" {
+        // an extra empty element: in front when there is one spec, in the middle otherwise
+        list = if specs.len() <= 1 { format!(",{}", list) } else { list.replacen(sep, ",,", 1) };
+    }
+    let eq_sp = if style == "sp_after_eq" { " " } else { "" };
+    let tail = if style == "trailing_sp" { " " } else { "" };
+    format!("{}{}{}{}", unit, eq_sp, list, tail)
 }
 
 pub fn target_of(q: &Value) -> String {
